@@ -76,7 +76,16 @@ def mkAtom (env : TyEnv) (f x slot i ty : Nat) : Val :=
     | .slice => .sl []
     | .other => if ty == tInt then .int (f * 1000000 + x * 10000 + slot * 100) else .zero ty
 
+/-- PROTOCOL §2.3: a `len` of `1000 + n` makes the execution return zero values — nil pointers, nil interfaces, zero
+    structs — and slices of `n` zero elements -/
+def nilLen : Nat := 1000
+
 def mkVal (env : TyEnv) (f x slot len ty : Nat) : Val :=
+  if len ≥ nilLen then
+    match kindOfId env ty with
+    | .slice => .sl ((List.range (len - nilLen)).map fun _ => zeroVal env ((elemOfId env ty).getD 0))
+    | _ => zeroVal env ty
+  else
   match kindOfId env ty with
   | .slice =>
     let e := (elemOfId env ty).getD 0
